@@ -1,5 +1,6 @@
 import GoProbeModel.Base.DriverLoop
 import GoProbeModel.Spec.C13
+import GoProbeModel.Spec.C22
 
 /-!
 `gpjudge`: executable specs. Reads lines `<Cxx> <case fields…> => <implementation output>` and
@@ -7,5 +8,6 @@ prints `holds[:note]` or `violates:<reason>`. Imports only `Spec/*` (never `Gen/
 so it stays buildable when a change to /repo breaks the regenerated model.
 -/
 def main : IO Unit := DriverLoop.runJudge [
-  ("C13", C13.judge)
+  ("C13", C13.judge),
+  ("C22", C22.judge)
 ]
